@@ -91,7 +91,7 @@ func LoadProgram(repoDir string, overlay map[string]string, patterns []string) (
 	prog, _ := ssautil.AllPackages(initial, ssa.InstantiateGenerics)
 	prog.Build()
 	P := &Program{prog: prog, initial: initial, ssaPkgs: map[string]*ssa.Package{}, stubs: stubs, funcByNm: map[string]*ssa.Function{},
-		unwind: 64, maxSteps: 20_000_000, maxSamples: 6, solverKind: "z3", solverTimeoutMs: 10000, repoDir: repoDir, params: map[string]int{}}
+		unwind: 64, maxSteps: 20_000_000, maxSamples: 6, solverKind: envOr("VSYM_SOLVER", "z3-new"), solverTimeoutMs: 10000, repoDir: repoDir, params: map[string]int{}}
 	for _, p := range prog.AllPackages() {
 		P.ssaPkgs[p.Pkg.Path()] = p
 	}
@@ -263,4 +263,11 @@ func (ex *Exec) ensurePkgInit(pkg *ssa.Package) {
 		}()
 		ex.callFunction(initFn, nil, nil, nil)
 	}()
+}
+
+func envOr(k, def string) string {
+	if v := os.Getenv(k); v != "" {
+		return v
+	}
+	return def
 }
